@@ -60,6 +60,13 @@ type mNode struct {
 	data   []byte
 	target string
 	leaf   virtual.LinkableLeaf
+
+	// What the "kernel" of the FUSE front end knows: node ID (0 if it
+	// does not know the object) and the lookups it holds; ino is the
+	// inode number, once anybody has seen it.
+	fuseID  uint64
+	nlookup uint64
+	ino     uint64
 }
 
 func (n *mNode) String() string {
@@ -96,6 +103,8 @@ type session struct {
 	recs    []cookieRec
 	pages   int
 	mutated bool
+	fuse    bool // paged through READDIR (plus: READDIRPLUS) of the FUSE front end
+	plus    bool
 }
 
 // cookieRec is a cookie returned by some page together with everything the
@@ -130,6 +139,8 @@ type c13 struct {
 	modified   map[*mNode]bool
 	lazyBefore map[*mNode]bool
 	ci         []ciCheck
+
+	f *fuseFront // FUSE front end, nil in two runs out of three
 
 	ops, mutations, errors int
 	writeSeq               int
@@ -338,7 +349,30 @@ func (w *c13) bindUnbound() {
 				for _, en := range p.entries {
 					if en.node == n && n.dir == nil {
 						n.dir = w.realDir(p, en.name)
+						w.verifyIno(n)
 						progress = true
+					}
+				}
+			}
+		}
+	}
+	for _, n := range w.leaves {
+		if n.leaf != nil {
+			continue
+		}
+		for _, p := range w.dirs {
+			if p.dir == nil {
+				continue
+			}
+			for _, en := range p.entries {
+				if en.node == n && n.leaf == nil {
+					child, err := p.dir.LookupChild(comp(en.name))
+					if err != nil {
+						w.fail("created-directory-missing", "%q was just created in %s but LookupChild says %v", en.name, p, err)
+					}
+					if _, l := child.GetPair(); l != nil {
+						n.leaf = l
+						w.verifyIno(n)
 					}
 				}
 			}
@@ -367,6 +401,16 @@ func (w *c13) leafFromSpec(c *lazyChild) *mNode {
 	n.exec = c.kind == lkExecFile
 	n.data = make([]byte, c.size)
 	return n
+}
+
+// verifyIno: an object first seen through a FUSE reply must be the one
+// that sits in the tree.
+func (w *c13) verifyIno(n *mNode) {
+	if n.ino != 0 {
+		if ino := w.directIno(n); ino != n.ino {
+			w.fail("wrong-object", "the FUSE reply that created %s carried inode number %d, but the object in the tree has %d", n, n.ino, ino)
+		}
+	}
 }
 
 // realDir fetches the real object of a directory the model just learnt
